@@ -216,7 +216,7 @@ def oStep (o : OSt) (op : List String) (exts : List (List String)) : OSt × Opti
     let evs := o.rtPend ++ o.rtInfl
     let u := if evs.isEmpty || !r.1.contains .upstreamTx then "-" else batchStr (0, evs)
     ({ o with rtStopped := true, rtPend := [], rtInfl := [] },
-     some s!"err={if r.2 then "deadline" else "nil"} coll={ran .collector} up={ran .upstreamTx} peer={ran .peerTx} ag={if o.rtOpamp then 2 else 0}/{if r.1.contains .app then 0 else if o.rtOpamp then 2 else 0} st={listOr "," (o.rtInfl.map fun _ => "200")} u={u}")
+     some s!"err={if r.2 then "deadline" else "nil"} coll={ran .collector} up={ran .upstreamTx} peer={ran .peerTx} ag={if r.1.contains .app then 0 else if o.rtOpamp then 2 else 0} st={listOr "," (o.rtInfl.map fun _ => "200")} u={u}")
   | ["rev", sid, dest] =>
     match sid.toNat?, dest.toNat? with
     | some sid, some dest => retryOp o (.ev sid dest)
@@ -397,7 +397,7 @@ def shMon (m : Mon) (op : List String) (_ : List (List String)) (obs : Option St
       -- requests in flight that were answered 200 are accepted events too
       let okInfl := (m.infl.zip sts).filterMap fun p => if p.2 == "200" then some p.1 else none
       let acc := okInfl ++ m.txacc
-      let agl := (((kv toks "ag").getD "0/0").splitOn "/").getD 1 "0"
+      let agl := (kv toks "ag").getD "0"
       let f0 := if agl != "0" then [mkFail "agent-goroutine-left-after-stop:app" s!"{agl} of the OpAMP agent's background loops are still running after startstop.Stop"] else []
       let f1 := f0 ++ if err.startsWith "panic:" then [mkFail "stop-aborted:panic" s!"startstop.Stop panicked ({err}); the components after the panicking one were never stopped"] else if err == "deadline" then [mkFail "stop-aborted:router-error" "startstop.Stop returned 'context deadline exceeded' from Router.Stop although the request in flight completed well within the grace period; the components after the router were never stopped"]
         else if err != "nil" then [mkFail "stop-aborted:error" s!"startstop.Stop returned an error ({err})"] else []
